@@ -1,5 +1,5 @@
 PROP = {
-    "claim": "Proof: over a Lean model of memory_read_byte / memory_write_byte / memory_read_word / memory_write_word and the "
+    "claim": "(no_crash_sys, sys_reachable, sysStep_total, sysOk_write) the passage of time through the WHOLE device composition Sys.dev - OAM DMA from any source page byte by byte, the timer's checked u32 addition, the LCD loop's cycles_remaining -= 4, the joypad - never panics either, for any whole number of machine cycles below 2^32 - 2^16 clocks, in every state reachable by bus accesses and time from any loadable cartridge; the invariant is buffer sizes + the timer counter in its 16 bits. Proof: over a Lean model of memory_read_byte / memory_write_byte / memory_read_word / memory_write_word and the "
              "OAM-DMA loop of run_clock_cycles in which every Rust panic (slice index out of range, addr+1 overflow) is an "
              "explicit error result, (no_crash) for every cartridge type the loader accepts, every ROM-size and RAM-size code of "
              "the header tables regenerated from cart.rs (header_rom_banks: every code gives >= 2 banks), every ROM content and "
@@ -22,7 +22,7 @@ PROP = {
                  "arithmetic, induction over access histories) + crash-observing differential correspondence in child processes",
     "gen": ["gen_header.py"],
     "streams": [{"name": "c11", "shards": {"quick": 4, "thorough": 16}}],
-    "modules": ["GbVerif.Model.Bus", "GbVerif.Model.Cart", "GbVerif.Model.Joypad", "GbVerif.Proofs.BusBasic",
+    "modules": ["GbVerif.Model.Sys", "GbVerif.Model.Timer", "GbVerif.Model.Lcd", "GbVerif.Proofs.SysTotal", "GbVerif.Proofs.BusIo", "GbVerif.Model.Bus", "GbVerif.Model.Cart", "GbVerif.Model.Joypad", "GbVerif.Proofs.BusBasic",
                 "GbVerif.Proofs.BusWf", "GbVerif.Gen.HeaderTables"],
     "exhaustive": {"quick": False, "thorough": False},
     "rule": "one case = (cartridge type, ROM code, RAM code) x one of 12 banking-register prefixes (incl. bank numbers beyond "
